@@ -369,3 +369,14 @@ add({"name": "connect_drives", "file": "dfs/storage.cc",
                (r"for \(; n < limit; n = n\.next\(\)\)", "for (; n < limit; n = SurfaceSelector_next(n)) FIRST_INNER_CONTRACT", 1),
                (r"is_drive_connected\(n\)", "is_drive_connected_model(n)", 1)],
      "dropped": []})
+
+# ---- opus_cat.h (C17): extents of Opus DDOS volumes --------------------------------------------------------------
+VL_PRE = "#define catalog_location_ (self->catalog_location_)\n#define start_sector_ (self->start_sector_)\n#define len_ (self->len_)\n#define volume_ (self->volume_)\n"
+VL_POST = "#undef catalog_location_\n#undef start_sector_\n#undef len_\n#undef volume_\n"
+add({"name": "VolumeLocation_set_next_sector", "file": "dfs/opus_cat.h", "anchor": r"void set_next_sector\(unsigned long next\)",
+     "sig": "static void VolumeLocation_set_next_sector(struct VolumeLocation *self, unsigned long next)",
+     "pre": VL_PRE, "post": VL_POST, "rules": [ASSERT(1)]})
+add({"name": "VolumeLocation_len", "file": "dfs/opus_cat.h", "anchor": r"unsigned long len\(\) const",
+     "sig": "static unsigned long VolumeLocation_len(const struct VolumeLocation *self)", "pre": VL_PRE, "post": VL_POST, "rules": []})
+add({"name": "VolumeLocation_start_sector", "file": "dfs/opus_cat.h", "anchor": r"unsigned long start_sector\(\) const",
+     "sig": "static unsigned long VolumeLocation_start_sector(const struct VolumeLocation *self)", "pre": VL_PRE, "post": VL_POST, "rules": []})
